@@ -142,6 +142,8 @@ func (ex *Exec) runPath(spec *HarnessSpec, prefix []Decision) {
 	ex.autoTime = true
 	ex.symAlloc = false
 	ex.mapPerm = false
+	ex.mapFixed = false
+	ex.randQueue = nil
 	ex.schedAtomics = false
 	ex.hasRefs = false
 	ex.syncTab = nil
